@@ -142,8 +142,24 @@ def wellformed_utf8_tok(t):
         return False
 
 # ---------------------------------------------------------------- stream builders
+def corpus_inputs():
+    import json
+    out = list(gens.TRAPS)
+    try:
+        for e in json.load(open(os.path.join(vlib.REPO, "test", "data", "my-urltestdata.json"))):
+            if isinstance(e, dict) and "input" in e:
+                out.append(e["input"])
+    except Exception:
+        pass
+    return out
+
 def stream_parse(ctx, r):
     cases = []
+    traps = corpus_inputs()
+    for base in gens.BASES:
+        lines = ["parse 0 %s -" % tok(base)] if base is not None else []
+        lines += ["parse 1 %s %s" % (tok(t), "0" if base is not None else "-") for t in traps]
+        cases.append(Case(lines, "corpus base=%r" % (base,)))
     n_inputs = scale(ctx, 200, 1000)
     for bi, base in enumerate(gens.BASES):
         for rep in range(scale(ctx, 5, 40)):
@@ -179,9 +195,10 @@ def stream_reparse(ctx, r):
         if base:
             lines.append("parse 0 %s -" % tok(base))
         lines.append("parse 1 %s %s" % (tok(gens.gen_relative(r) if base and r.random() < 0.5 else gens.gen_url(r)), "0" if base else "-"))
-        # setter history, excluding protocol changes (the file: exception of the Standard)
+        # setter history (a protocol change into file: may create the Standard's own exception,
+        # which the oracle recognises by its shape: host 'localhost' or a first segment 'X|')
         for _ in range(r.randint(0, 4)):
-            w, v = gen_setter_call(r, allow_protocol=False)
+            w, v = gen_setter_call(r, allow_protocol=True)
             lines.append("set 1 %s %s" % (w, tok(v)))
         lines.append("reparse 2 1 -")
         for b2 in r.sample(valid_bases, 3):
@@ -194,8 +211,8 @@ def oracle_reparse(cmd, line):
     m = oracle_state(cmd, line)
     if m:
         return m
-    if cmd.startswith("reparse") and " same=0" in line:
-        return "reparse-differs"      # the generator only reparses sources that are valid ...
+    if cmd.startswith("reparse") and " same=0" in line and " quirk=0" in line:
+        return "reparse-differs"
     return None
 
 SETTERS = ["href", "protocol", "username", "password", "host", "hostname", "port", "pathname", "search", "hash"]
@@ -207,12 +224,12 @@ def gen_setter_call(r, allow_protocol=True):
     elif w in ("username", "password"): v = r.choice(["", "u", "p w", "a@b", "a:b", "a/b?c#d", "\u00fc", "%41", "%zz", "[]^|;=\\", "\t\n x", "\x00\x7f"])
     elif w in ("host", "hostname"): v = r.choice(["", gens.gen_host(r), gens.gen_host(r) + r.choice(gens.PORTS), gens.gen_host(r) + "/x", "h:99?q", "h#f", "h\\x", "a@b", ":80", "[::1]:1", " h", "h\t\n", "x:y"])
     elif w == "port": v = r.choice(["", "0", "80", "443", "21", "8080", "65535", "65536", "99999", "000080", "1x", "x", "-1", " 1", "1 ", "\t8\n0", "8080/p", "4294967377", "080"])
-    elif w == "pathname": v = r.choice(["", "/", "a", "/a/b", "..", "/../x", "%2e%2E/y", "\\x\\y", "?", "#", "/a?b#c", "//x", "/.//x", "C|/x", "/C:/../..", " x ", "\t/\n", "\u00fc", "/\x00"]) if r.random() < 0.7 else gens.gen_path(r)
-    elif w == "search": v = r.choice(["", "?", "??", "a=b", "?a=b&c", "a#b", "'\"<>", "\u00fc", " x ", "\t\n", "?\t", "%zz", "a+b c"])
+    elif w == "pathname": v = r.choice(["", "/", "//", "///", "/.//", "/a/..//", "a", "/a/b", "..", "/../x", "%2e%2E/y", "\\x\\y", "?", "#", "/a?b#c", "//x", "/.//x", "C|/x", "/C:/../..", " x ", "\t/\n", "\u00fc", "/\x00"]) if r.random() < 0.7 else gens.gen_path(r)
+    elif w == "search": v = r.choice(["", "?", "??", "a=b", "?a=b&c", "a#b", "'\"<>", "\u00fc", " x ", "\t\n", "?\t", "%zz", "a+b c", "z=1&y=2&x=3", "?b=2&a=1&b=1&a=2", "\uffff=1&\U00010000=2&a", "c&b&a", "a=%41&b&&c=d&", "%7e=1"])
     else: v = r.choice(["", "#", "##", "f", "#f g", "\"<>`", "\u00fc", " x ", "\t\n", "#\n", "%zz", "a#b?c"])
     return w, v
 
-START_URLS = ["http://example.com/", "https://u:p@h:8443/a/b?q#f", "http://h", "ftp://h:21/", "ws://h:80/x?y", "file:///C:/a/b", "file://host/x",
+START_URLS = ["http://h/p?z=1&y=2&x=3", "non-spec:/p?b=2&a=1#f", "http://h/?a=%41&b&&c=d&", "http://h/p?", "http://example.com/", "https://u:p@h:8443/a/b?q#f", "http://h", "ftp://h:21/", "ws://h:80/x?y", "file:///C:/a/b", "file://host/x",
               "file:///", "file://localhost/x", "non-spec://u:p@h:99/p?q#f", "non-spec://h", "non-spec:/p", "non-spec:///p", "non-spec://",
               "non-spec:/.//p", "non-spec:opaque  ", "mailto:a@b?s  #f", "javascript:alert(1)  ", "data:x  ?q", "blob:http://h/id", "a:b #c", "http://[::1]/", "http://1.2.3.4/",
               "http://h/a/b/c/..", "https://h/?#", "non-spec:/..//p", "wss://h:443/"]
@@ -243,12 +260,40 @@ def gen_sp_op(r, prefix, slot):
 def stream_histories(ctx, r):
     """C05/C06: interleavings of URL operations and query-object mutations over two or three objects"""
     cases = []
+    UNSORTED = ["z=1&y=2&x=3", "b=2&a=1&b=1&a=2", "\uffff=1&\U00010000=2&a=0", "c&b&a", "a=%41&b&&c=d&", "y&x=%7e"]
+    # focused histories on one object: the query object exists, gets sorted / cleared, the query is
+    # replaced from outside (search / href setters, parse, copy, move, safe_assign), then sorted or edited again
+    for rep in range(scale(ctx, 1200, 15000)):
+        lines = ["parse 0 %s -" % tok(r.choice(["http://h/p?", "non-spec:/p?", "http://h/?"]) + r.choice(UNSORTED)), "parse 1 %s -" % tok("https://o/q?" + r.choice(UNSORTED))]
+        if r.random() < 0.8: lines.append("sp 0")
+        for _ in range(r.randint(3, 12)):
+            k = r.random()
+            if k < 0.22: lines.append("sp_sort 0")
+            elif k < 0.30: lines.append("clear 0")
+            elif k < 0.42: lines.append("set 0 search %s" % tok(r.choice(["", "?"]) + r.choice(UNSORTED)))
+            elif k < 0.50: lines.append("set 0 href %s" % tok("http://n/?" + r.choice(UNSORTED)))
+            elif k < 0.60: lines.append("parse 0 %s %s" % (tok(r.choice(["http://m/?", "?"]) + r.choice(UNSORTED)), r.choice(["-", "1"])))
+            elif k < 0.66: lines.append("copy 0 1")
+            elif k < 0.70: lines.append("parse 1 %s -" % tok("https://o2/?" + r.choice(UNSORTED))); 
+            elif k < 0.74: lines.append("move 0 1"); 
+            elif k < 0.78: lines.append("safe_assign 0 1")
+            elif k < 0.82: lines.append("swap 0 1")
+            elif k < 0.86: lines.append("sp 1")
+            elif k < 0.90: lines.append("sp_sort 1")
+            else: lines.append(gen_sp_op(r, "sp", 0))
+        lines += ["sp_sort 0", "get 0", "get 1"]
+        cases.append(Case(lines, "focused-history"))
     for rep in range(scale(ctx, 2500, 30000)):
         lines = []
         for _ in range(r.randint(2, scale(ctx, 15, 60))):
             x = r.random(); a, b = r.sample([0, 1, 2], 2)
             if x < 0.18:
-                lines.append("parse %d %s %s" % (a, tok(r.choice(START_URLS) if r.random() < 0.6 else gens.gen_url(r)), r.choice(["-", "-", str(b)])))
+                bs = r.choice(["-", "-", str(b)])
+                if bs != "-" and r.random() < 0.6:
+                    rel = r.choice(["#frag", "#", "#a b", "?q", "x", "", "/x", "../y", "//h2/z"]) if r.random() < 0.4 else gens.gen_relative(r)
+                    lines.append("parse %d %s %s" % (a, tok(rel), bs))
+                else:
+                    lines.append("parse %d %s %s" % (a, tok(r.choice(START_URLS) if r.random() < 0.6 else gens.gen_url(r)), bs))
             elif x < 0.36:
                 w, v = gen_setter_call(r); lines.append("set %d %s %s" % (a, w, tok(v)))
             elif x < 0.42: lines.append("clear %d" % a)
@@ -270,12 +315,20 @@ def stream_histories(ctx, r):
 
 def stream_canparse(ctx, r):
     cases = []
+    traps = corpus_inputs()
+    for base in gens.BASES:
+        lines = ["parse 0 %s -" % tok(base)] if base is not None else []
+        for t in traps:
+            lines.append("can_parse 1 %s %s" % (tok(t), "0" if base is not None else "-"))
+            if base is not None and r.random() < 0.3:
+                lines.append("can_parse_sb 1 %s %s" % (tok(t), tok(base)))
+        cases.append(Case(lines, "corpus canparse base=%r" % (base,)))
     for bi, base in enumerate(gens.BASES):
-        for rep in range(scale(ctx, 2, 10)):
+        for rep in range(scale(ctx, 8, 40)):
             lines = []
             if base is not None:
                 lines.append("parse 0 %s -" % tok(base))
-            for _ in range(scale(ctx, 40, 300)):
+            for _ in range(scale(ctx, 150, 600)):
                 s = gens.gen_relative(r) if base is not None and r.random() < 0.6 else gens.gen_url(r)
                 e = r.choice(ENCS) if r.random() < 0.2 else "b"
                 k = r.random()
